@@ -1,6 +1,7 @@
 import Snel.Model.Proto
 import Snel.Model.Order
-open Snel Snel.Proto Snel.Order
+import Snel.Model.Rlte
+open Snel Snel.Proto Snel.Order Snel.Rlte
 
 /-! Line-protocol driver for C10.
 
@@ -13,6 +14,9 @@ Value tokens: `n` | `b0` `b1` | `i<dec>` | `f<16 hex digits>` | `t<dec>` | `s<he
 * `merge1 asc lim off F (R (key id)*)*`     → ids (one merger instance)
 * `accept lim off N id*`        → indices of the accepted rows
 * `handler ordered sequence lim off` → verdict
+* `ladder v*`                   → the zone's ladder for these field values (hex entries)
+* `rltel asc lim off zoneSize wk wv Z (shard seg zone L hex*)*` → `none` | `cutoff=.. kept=s:g:z,..`
+  (`wk` ∈ - lt lte gt gte, `wv` the literal)
 -/
 
 def hexNat (s : String) : Option Nat :=
@@ -81,6 +85,37 @@ def parseShards : Nat → List String → Option (List (List (List Row)) × List
 def idsLine (rows : List Row) : String :=
   if rows.isEmpty then "-" else " ".intercalate (rows.map fun r => toString r.2)
 
+def unhexNats (s : String) : Option (List Nat) := (unhex s).map fun bs => bs.map (·.toNat)
+
+def parseLadder : Nat → List String → Option (List (List Nat) × List String)
+  | 0, ts => some ([], ts)
+  | k + 1, h :: ts => do
+    let b ← unhexNats h
+    let (r, rest) ← parseLadder k ts
+    some (b :: r, rest)
+  | _, _ => none
+
+def parseZones : Nat → List String → Option (List Zone × List String)
+  | 0, ts => some ([], ts)
+  | k + 1, sh :: sg :: zn :: cnt :: ts => do
+    let sh ← sh.toNat?
+    let sg ← sg.toNat?
+    let zn ← zn.toNat?
+    let c ← cnt.toNat?
+    let (lad, rest) ← parseLadder c ts
+    let (zs, rest') ← parseZones k rest
+    some (⟨sh, sg, zn, lad⟩ :: zs, rest')
+  | _, _ => none
+
+def parseWhere (wk wv : String) : Option (Option (WhereKind × Nat)) :=
+  match wk with
+  | "-" => some none
+  | "lt" => wv.toNat?.map fun v => some (.lt, v)
+  | "lte" => wv.toNat?.map fun v => some (.lte, v)
+  | "gt" => wv.toNat?.map fun v => some (.gt, v)
+  | "gte" => wv.toNat?.map fun v => some (.gte, v)
+  | _ => none
+
 def answer (line : String) : String :=
   match words line with
   | ["conv", v] =>
@@ -118,6 +153,25 @@ def answer (line : String) : String :=
       let out := acceptRows lim off {} rows
       if out.isEmpty then "-" else " ".intercalate (out.map fun r => toString r.2)
     | _, _, _, _ => "bad-op"
+  | "ladder" :: vs =>
+    match vs.mapM parseSV with
+    | some svs =>
+      match svs.mapM sortable with
+      | some bs => " ".intercalate ((buildLadder bs).map hexOfNats)
+      | none => "unsupported"
+    | none => "bad-op"
+  | "rltel" :: asc :: lim :: off :: zs :: wk :: wv :: nz :: rest =>
+    match asc.toNat?, optNat lim, optNat off, zs.toNat?, parseWhere wk wv, nz.toNat? with
+    | some asc, some lim, some off, some zs, some wb, some nz =>
+      match parseZones nz rest with
+      | some (zones, []) =>
+        match planWithRlte zones (asc != 0) lim off zs wb with
+        | none => "none"
+        | some p =>
+          let kept := ",".intercalate (p.kept.map fun z => s!"{z.shard}:{z.seg}:{z.zone}")
+          s!"cutoff={hexOfNats p.cutoff} kept={kept}"
+      | _ => "bad-op"
+    | _, _, _, _, _, _ => "bad-op"
   | ["handler", ordered, sequence, lim, off] =>
     match ordered.toNat?, sequence.toNat?, optNat lim, optNat off with
     | some o, some s, some lim, some off =>
@@ -127,4 +181,15 @@ def answer (line : String) : String :=
     | _, _, _, _ => "bad-op"
   | _ => "bad-op"
 
-def main : IO Unit := serve answer
+/-- `--interactive`: answer and flush line by line (the harness asks the model whether a failing
+    response is the one the faithful model predicts). -/
+partial def interactive (h out : IO.FS.Stream) : IO Unit := do
+  let line ← h.getLine
+  if line.isEmpty then return ()
+  out.putStrLn (answer line)
+  out.flush
+  interactive h out
+
+def main (args : List String) : IO Unit := do
+  if args.contains "--interactive" then interactive (← IO.getStdin) (← IO.getStdout)
+  else serve answer
